@@ -260,6 +260,13 @@ def cases(tier, seed):
 				yield {'kind': 'index', 'coll': coll, 'n': 4, 'index': {'t': 'array', 'dt': dtn, 'v': v}}
 			for v in (0, 3) + ((-1, -4) if dtn[0] == 'i' else ()):
 				yield {'kind': 'index', 'coll': coll, 'n': 4, 'index': {'t': 'npint', 'dt': dtn, 'v': v}}
+	# unsigned values near the top of the 64-bit range: out of range for every collection, never a negative index
+	for coll in colls:
+		for v in ([2 ** 64 - 1], [2 ** 64 - 4], [0, 2 ** 64 - 2], [2 ** 63], [2 ** 63 - 1], [2 ** 64 - 5, 1]):
+			yield {'kind': 'index', 'coll': coll, 'n': 4, 'index': {'t': 'array', 'dt': 'u8', 'v': v}}
+			yield {'kind': 'index', 'coll': coll, 'n': 4, 'index': {'t': 'list', 'v': v}}
+		for v in (2 ** 64 - 1, 2 ** 63, 2 ** 64 - 4):
+			yield {'kind': 'index', 'coll': coll, 'n': 4, 'index': {'t': 'npint', 'dt': 'u8', 'v': v}}
 	for coll in colls:
 		yield {'kind': 'indexlists', 'coll': coll, 'n': 4 if (tier == 'quick' and coll == 'hdf5') else 5, 'seed': 11, 'dtype': 'u8' if coll == 'array' else None}
 	# narrow index dtypes on collections longer than the dtype's range
